@@ -101,19 +101,31 @@ type mdIter struct {
 }
 
 // mdEscapeIter runs one iteration of markdownEscape's loop on s[i]=c.
+type mdEscapeCache struct {
+	fd                  *ast.FuncDecl
+	ls                  []ast.Stmt
+	escObj, iObj, lastO types.Object
+}
+
+var mdEscCache *mdEscapeCache
+
 func mdEscapeIter(p *packages.Package, allowHTML bool, c, i, n, prev, next int64, slash, nbsp string) mdIter {
-	fd := mustFunc(p, "markdownEscape")
-	ls := loops(fd.Body)
-	if len(ls) != 2 {
-		panic(fmt.Sprintf("markdownEscape: expected 2 loops, found %d", len(ls)))
+	if mdEscCache == nil {
+		fd := mustFunc(p, "markdownEscape")
+		ls := loops(fd.Body)
+		if len(ls) != 2 {
+			panic(fmt.Sprintf("markdownEscape: expected 2 loops, found %d", len(ls)))
+		}
+		mdEscCache = &mdEscapeCache{fd, ls, localObj(p, fd, "esc"), localObj(p, fd, "i"), localObj(p, fd, "last")}
 	}
+	fd, ls := mdEscCache.fd, mdEscCache.ls
 	e := newEnv(p)
 	bindParams(e, fd, map[string]constant.Value{"allowHTML": constant.MakeBool(allowHTML)})
 	e.vars[p.Types.Scope().Lookup("slash")] = constant.MakeString(slash)
 	e.vars[p.Types.Scope().Lookup("nbsp")] = constant.MakeString(nbsp)
-	e.vars[localObj(p, fd, "esc")] = constant.MakeString(mdStale)
-	e.vars[localObj(p, fd, "i")] = constant.MakeInt64(i)
-	e.vars[localObj(p, fd, "last")] = constant.MakeInt64(i)
+	e.vars[mdEscCache.escObj] = constant.MakeString(mdStale)
+	e.vars[mdEscCache.iObj] = constant.MakeInt64(i)
+	e.vars[mdEscCache.lastO] = constant.MakeInt64(i)
 	e.byname["s[i]"] = constant.MakeInt64(c)
 	e.byname["len(s)"] = constant.MakeInt64(n)
 	if i+1 < n {
@@ -134,7 +146,7 @@ func mdEscapeIter(p *packages.Package, allowHTML bool, c, i, n, prev, next int64
 		if !ok {
 			panic(fmt.Sprintf("markdownEscape byte %d: esc unknown at the end of the iteration", c))
 		}
-		lv, ok := e.vars[localObj(p, fd, "last")]
+		lv, ok := e.vars[mdEscCache.lastO]
 		if !ok {
 			panic(fmt.Sprintf("markdownEscape byte %d: last unknown at the end of the iteration", c))
 		}
@@ -427,9 +439,10 @@ func init() {
 		if len(cls) != 1 {
 			return fmt.Errorf("markdownCodeBlockEscape: expected 1 loop, found %d", len(cls))
 		}
+		cbI, cbL := localObj(p, cb, "i"), localObj(p, cb, "last")
 		cbIter := func(c, next int64, n int64) (isNL bool, iAdv int64) {
 			e := newEnv(p)
-			iobj, lobj := localObj(p, cb, "i"), localObj(p, cb, "last")
+			iobj, lobj := cbI, cbL
 			e.vars[iobj] = constant.MakeInt64(0)
 			e.vars[lobj] = constant.MakeInt64(-5)
 			e.byname["s[i]"] = constant.MakeInt64(c)
@@ -624,12 +637,20 @@ func init() {
 			}
 		}
 		fmt.Fprintf(b, "(* mdescape.go markdownUnescape: the escape case writes s[i+1 : i+2] *)\nDefinition gen_mdurl_unesc_writes_next : bool := %s.\n\n", coqBool(okSlice))
+		var cls [256][256]int8
+		var wrs [256][256]int64
+		for c := int64(0); c < 256; c++ {
+			for d := int64(0); d < 256; d++ {
+				cl, wr := unIter(c, d, true)
+				cls[c][d], wrs[c][d] = int8(cl), wr
+			}
+		}
 		fmt.Fprintf(b, "(* mdescape.go markdownUnescape: pairs (c, d) for which d is written in place of c d *)\nDefinition gen_mdurl_unesc_escape : list (N * list N) := [")
 		first := true
 		for c := int64(0); c < 256; c++ {
 			var ds []int64
 			for d := int64(0); d < 256; d++ {
-				if cl, _ := unIter(c, d, true); cl == 1 {
+				if cls[c][d] == 1 {
 					ds = append(ds, d)
 				}
 			}
@@ -646,12 +667,12 @@ func init() {
 		first = true
 		for c := int64(0); c < 256; c++ {
 			for d := int64(0); d < 256; d++ {
-				if cl, wr := unIter(c, d, true); cl == 2 {
+				if cls[c][d] == 2 {
 					if !first {
 						b.WriteString("; ")
 					}
 					first = false
-					fmt.Fprintf(b, "(%d, (%d, %d))", c, d, wr)
+					fmt.Fprintf(b, "(%d, (%d, %d))", c, d, wrs[c][d])
 				}
 			}
 		}
